@@ -171,3 +171,14 @@ package asp
 //@   ensures a_fresh_map [C17]: unbox(result, pyFrozenDict).pyDict != d
 //@   ensures deep [C17]: forall k string :: in(k, d) ==> in(k, unbox(result, pyFrozenDict).pyDict) && \
 //@      unbox(result, pyFrozenDict).pyDict[k] == ite(dyntype(d[k], freezable), unbox(d[k], freezable).Freeze(), d[k])
+
+// ---------------------------------------------------------------------------------------------
+// The parser never fails with an internal runtime error (C19): safety-only contracts
+//
+// Every String token the lexer produces is surrounded by quotes (at least two bytes); a value expression
+// holding a string is either such a literal or an f-string. Under that precondition concatenating adjacent
+// literals must not index out of range, whatever mix of plain and f-strings (with or without variables).
+//@ func concatStrings
+//@   requires lhs != nil && rhs != nil
+//@   requires (lhs.FString != nil || len(lhs.String) >= 2) && (rhs.FString != nil || len(rhs.String) >= 2)
+//@   property C19
